@@ -1,5 +1,5 @@
 """C10 — only the leader decides; other nodes refuse (engine part: role gate, no journalling off-leader, follower-side expiry deferral)."""
-from props import engine2_common, c10f
+from props import engine2_common, c10f, ms_common
 
 THEOREMS = engine2_common.THEOREMS_C10
 THEOREMS_ALL = THEOREMS + c10f.THEOREMS
@@ -23,6 +23,7 @@ def run(ctx):
         ctx.leanchecker("Slock.Properties.C10")
     engine2_common.run_engine2(ctx, ["C10:"])
     c10f.run_forward(ctx, ["C10:"])
+    ms_common.run_ms_follower(ctx)
     for a in c10f.FINISH.get("assumptions", []):
         ctx.assumptions.append("forwarding half: " + a)
     ctx.cov["rule"] = ("seeded operation sequences on the real LockDB (LOCK/UNLOCK with value frames, aof-timing flags, from-aof commands; ticks; role flips with "
@@ -31,6 +32,8 @@ def run(ctx):
 
 
 def replay(path):
+    if ms_common.is_ms_replay(path):
+        return ms_common.replay_ms("C10", path)
     if "engine2 " in open(path).read():
         return engine2_common.replay_engine2("C10", path, ["C10:"])
     return c10f.replay(path)
